@@ -6,7 +6,8 @@
      dim = 1: force[0] = e_0;  else force[0] = sum_{i < 2(dim-1)} e_i,
      force[i+1] = (e_{2i} - e_{2i+1}) * mu_i for i < dim-1, remaining slots 0. *)
 From Coq Require Import ZArith Reals List Bool.
-From VF Require Import Base.Scalar Base.ScalarR Base.Vec Gen.support Proof.ContactForce.
+From Coq Require Import String.
+From VF Require Import Base.Scalar Base.ScalarR Base.Vec Base.Kernel Gen.support Proof.ContactForce.
 Import ListNotations.
 Local Open Scope R_scope.
 
@@ -87,6 +88,29 @@ Theorem C39_vec_mat_is_transpose :
     = @mat_vec R ScalarR 3 3 (@mtranspose R ScalarR 3 3 [m0; m1; m2; m3; m4; m5; m6; m7; m8]) [a; b; c].
 Proof. exact vec_mat_is_transpose. Qed.
 Print Assumptions C39_vec_mat_is_transpose.
+
+(* the launching kernel (k_contact_force_kernel = the machine-translated task function of
+   support.py:contact_force_kernel): request slot tid writes nothing when contact_ids[tid] >= nacon,
+   otherwise exactly out[tid] = contact_force_fn(.., worldid, contact_ids[tid], ..) with
+   worldid = contact_worldid[contact_ids[tid]] - the world of the REQUESTED CONTACT *)
+Theorem C39_contact_force_kernel_task :
+  forall tid opt_cone frame fric cdim cadr cworld adh efc_force njmax nacon ids tow out orc,
+    @k_contact_force_kernel R ScalarR tid opt_cone frame fric cdim cadr cworld adh efc_force njmax nacon ids tow out orc
+    = if (ids tid >=? nacon 0%Z)%Z then nil
+      else [mkW "out"%string [tid] KSet
+              (VV (cf opt_cone frame fric cdim cadr adh efc_force njmax nacon (cworld (ids tid)) (ids tid) tow))].
+Proof. exact contact_force_kernel_task. Qed.
+Print Assumptions C39_contact_force_kernel_task.
+
+(* hence the stored wrench depends on the slot only through the requested id: permuted, reversed or
+   repeated request lists return the same wrench for the same contact *)
+Theorem C39_contact_force_kernel_request_only :
+  forall tid tid' opt_cone frame fric cdim cadr cworld adh efc_force njmax nacon ids ids' tow out out' orc orc',
+    ids tid = ids' tid' ->
+    map (fun w => w_val w) (@k_contact_force_kernel R ScalarR tid opt_cone frame fric cdim cadr cworld adh efc_force njmax nacon ids tow out orc)
+    = map (fun w => w_val w) (@k_contact_force_kernel R ScalarR tid' opt_cone frame fric cdim cadr cworld adh efc_force njmax nacon ids' tow out' orc').
+Proof. exact contact_force_kernel_request_only. Qed.
+Print Assumptions C39_contact_force_kernel_request_only.
 
 (* non-vacuity: a valid contact exists *)
 Example C39_valid_exists : cf_valid (fun _ _ => 4%Z) (fun _ => 3%Z) 1 = true.
